@@ -84,6 +84,33 @@ func (p *pg) genC15() (Config, Plan) {
 	// runs (encoded size = maximum + delta, computed through the codec at run time)
 	huge := p.r.Intn(25) == 0
 	var plan Plan
+	if p.r.Intn(60) == 0 {
+		// one batch of two or three entries, each legal (about half the maximum),
+		// together larger than a whole segment plus one maximum-size entry; then the
+		// process stops (clean Close, process crash or power loss) before or while
+		// the background rotation commits, and the directory is reopened: the tail
+		// that recovery has to scan holds a batch larger than any single entry
+		c.SegSize = []int{64, 4096, 1 << 20, 4 << 20}[p.r.Intn(4)]
+		c.Granule = 4096
+		plan.Ops = append(plan.Ops, p.appendOp())
+		nb := 2 + p.r.Intn(2)
+		op := OpSpec{Kind: "append", N: nb}
+		for j := 0; j < nb; j++ {
+			op.Sizes = append(op.Sizes, (33<<20)+p.r.Intn(1<<20))
+			op.Ext = append(op.Ext, 0)
+		}
+		plan.Ops = append(plan.Ops, op)
+		switch p.r.Intn(3) {
+		case 0:
+			plan.Ops = append(plan.Ops, OpSpec{Kind: "reopen"})
+		case 1:
+			plan.Ops = append(plan.Ops, OpSpec{Kind: "quiesce", Fault: &FaultSpec{Class: "crash", K: 0, When: "before"}})
+		default:
+			plan.Ops = append(plan.Ops, OpSpec{Kind: "quiesce", Fault: &FaultSpec{Class: "power", K: 0, When: []string{"before", "after"}[p.r.Intn(2)]}})
+		}
+		plan.Ops = append(plan.Ops, p.appendOp(), OpSpec{Kind: "reopen"})
+		return c, plan
+	}
 	n := 2 + p.r.Intn(6)
 	for i := 0; i < n; i++ {
 		bn := 1 + p.r.Intn(3)
